@@ -234,6 +234,10 @@ class MemoryFile(File):
   def tell(self) -> int:
     return self._buffer.tell()
 
+  def truncate(self) -> None:
+    self._buffer.seek(0)
+    self._buffer.truncate()
+
   def flush(self) -> None:
     pass
 
@@ -279,6 +283,9 @@ class MemoryFileSystem(FileSystem):
         buffer = io.BytesIO() if 'b' in mode else io.StringIO()
         file = MemoryFile(buffer)
         parent_dir[name] = file
+    elif 'w' in mode:
+      # Opening an existing file for writing discards its previous content.
+      file.truncate()
 
     if file is None:
       raise FileNotFoundError(path)
